@@ -253,6 +253,80 @@ class ClassInfo:
         return f'<Class {self.qualname}>'
 
 
+_BUILTIN_TYPES = ('str', 'int', 'float', 'bool', 'bytes', 'tuple', 'list', 'dict', 'set', 'frozenset', 'object', 'type', 'slice', 'complex')
+
+
+def canon_text(src: str) -> str:
+    '''Normalised text of an expression / statement given as source, in the canonical form of the analysed program.'''
+    tree = canonicalise(ast.parse(src))
+    node = tree.body[0]
+    return norm(node.value if isinstance(node, ast.Expr) else node)
+
+
+def _is_constlike(e: ast.expr) -> bool:
+    if isinstance(e, ast.Constant):
+        return True
+    if isinstance(e, ast.UnaryOp) and isinstance(e.op, ast.USub) and isinstance(e.operand, ast.Constant):
+        return True
+    if isinstance(e, ast.Name) and (e.id.isupper() or e.id[:1].isupper() or e.id in _BUILTIN_TYPES):
+        return True             # UPPER_CASE constant, ClassName or builtin type
+    if isinstance(e, ast.Attribute):
+        if e.attr.isupper():
+            return True
+        root = e
+        while isinstance(root, ast.Attribute):
+            root = root.value
+        if isinstance(root, ast.Name) and root.id in ('np', 'numpy', 'tp', 'datetime', 'operator', 'os'):
+            return True         # np.ndarray, np.nan, ... : names of the library, not values of the program
+    return False
+
+
+def canonicalise(tree: ast.AST) -> ast.AST:
+    """Behaviour-preserving normal form of the analysed program, so that no rule depends on incidental spelling:
+      * symmetric comparisons (==, !=, is, is not) have the constant-like operand (literal, UPPER_CASE name) on the right, otherwise the
+        textually smaller operand on the left;
+      * `if not a: Y else: X` (with a real else, not an elif) is `if a: X else: Y`;
+      * an annotated local assignment `x: T = v` inside a function is `x = v`.
+    Positions (lineno / col_offset) are kept."""
+    for c in ast.walk(tree):
+        if isinstance(c, ast.Compare) and len(c.ops) == 1 and isinstance(c.ops[0], (ast.Eq, ast.NotEq, ast.Is, ast.IsNot)):
+            l, r = c.left, c.comparators[0]
+            lc, rc = _is_constlike(l), _is_constlike(r)
+            swap = (lc and not rc) or (lc == rc and ast.unparse(l) > ast.unparse(r))
+            if swap:
+                c.left, c.comparators[0] = r, l
+    for i in ast.walk(tree):
+        if isinstance(i, ast.If) and isinstance(i.test, ast.UnaryOp) and isinstance(i.test.op, ast.Not) and i.orelse \
+                and not (len(i.orelse) == 1 and isinstance(i.orelse[0], ast.If)):
+            i.test = i.test.operand
+            i.body, i.orelse = i.orelse, i.body
+
+    class T(ast.NodeTransformer):
+        def __init__(self):
+            self.depth = 0
+
+        def visit_FunctionDef(self, node):
+            self.depth += 1
+            self.generic_visit(node)
+            self.depth -= 1
+            return node
+        visit_AsyncFunctionDef = visit_FunctionDef
+
+        def visit_ClassDef(self, node):
+            d, self.depth = self.depth, 0
+            self.generic_visit(node)
+            self.depth = d
+            return node
+
+        def visit_AnnAssign(self, node):
+            if self.depth and node.value is not None and isinstance(node.target, ast.Name):
+                return ast.copy_location(ast.Assign(targets=[node.target], value=node.value), node)
+            return node
+    T().visit(tree)
+    ast.fix_missing_locations(tree)
+    return tree
+
+
 class Module:
     def __init__(self, name: str, path: str, relpath: str, src: str):
         self.name = name
@@ -261,7 +335,7 @@ class Module:
         self.relpath = relpath
         self.src = src
         self.lines = src.splitlines()
-        self.tree = ast.parse(src, filename=path)
+        self.tree = canonicalise(ast.parse(src, filename=path))
         self.imports: tp.Dict[str, tp.Tuple[str, tp.Optional[str]]] = {}
         self.constants: tp.Dict[str, ast.expr] = {}
         self.functions: tp.Dict[str, FuncInfo] = {}
